@@ -81,6 +81,13 @@ def scenarios(c):
         S.append("kind=pcq gran=fine mode=enum limit=%d swap=1 cap=%d prod=%s cons=%s" % (
             lim, cap, ",".join(map(str, prod)), ",".join(map(str, cons))))
     S.append("kind=pcq gran=sem mode=enum limit=%d swap=1 cap=2 prod=2,2 cons=2,2" % lim)
+    # consumers using DIFFERENT methods on one queue (cswap: 0 = Consume(T&), 1 = ConsumeSwap) with >= 2 queued
+    # items: both methods must exclude each other (same mutex); the harness also verifies at the first scheduling
+    # point of every critical section that the real lock_guard holds the mutex the hook names (LOCK-MISMATCH)
+    for cap, prod, cons, cs in [(2, [2], [1, 1], "0,1"), (2, [2], [1, 1], "1,0"), (3, [2, 1], [2, 1], "0,1"), (2, [1, 1], [1, 1], "1,0"),
+                                (3, [3], [1, 1, 1], "0,1,0")]:
+        S.append("kind=pcq gran=fine mode=enum limit=%d cswap=%s cap=%d prod=%s cons=%s" % (
+            lim, cs, cap, ",".join(map(str, prod)), ",".join(map(str, cons))))
     S.append("kind=pcq gran=fine mode=enum limit=%d swap=1 cap=2 prod=1,1 cons=1" % (4 * lim))
     # a depth-first enumeration cut off by `limit` only varies the END of the schedule: complement every
     # finest-granularity scenario with uniformly random schedules (deviations early in the run)
@@ -197,6 +204,11 @@ def oracle(c, line, out):
         want_file = "%d:%d" % (len(data), fnv(data))
     for x in execs:
         res = x.split(" | ")[-1]
+        if "LOCK-MISMATCH" in res:
+            viol("mutex: a thread entered a critical section without holding the mutex that guards it (two threads can read/write the same slot): %s" % res[-120:], x)
+        if "REAL-BLOCK" in res:
+            viol("mutex: a thread blocked on a real mutex that no thread inside that critical section holds by design (wrong mutex locked): %s" % res[-160:], x)
+            continue
         if "NONDETERMINISTIC" in res:
             c.broken.append("harness: execution not reproducible under the same schedule prefix: %s" % line)
         if res.startswith("DEADLOCK"):
@@ -226,7 +238,11 @@ def oracle(c, line, out):
             if got != list(range(1, min(n, want) + 1)) or "prologue" in res:
                 viol("usq-order: consumer received %s, produced 1..%d (want %d) %s" % (got[:20], n, want, res[-40:]), x)
         elif kind == "pcq":
-            gots = [ints(g) for g in re.search(r"got=(\S*)", res).group(1).split(";")] if cons else []
+            mg = re.search(r"got=(\S*)", res)
+            if cons and not mg:
+                viol("harness-crash: execution ended without a result: %s" % res[:200], x)
+                continue
+            gots = [ints(g) for g in mg.group(1).split(";")] if cons else []
             flat = sorted(v for g in gots for v in g)
             if balanced and flat != allitems:
                 viol("pcq-exactly-once: consumers received %s, produced %s" % (flat[:30], allitems[:30]), x)
@@ -339,6 +355,28 @@ def main(argv):
     for line in eintr:
         c.count(("eintr", line), bucket="eintr")
         oracle(c, line, eb.get(line) or ["E -1 MISSING"])
+    # --- strong exception guarantee of Consume(T&): the item type's copy-assignment throws once (like bad_alloc)
+    #     during the copy-out of consumer c's k-th call (cthrow); the consumer catches and consumes again.  The queue
+    #     must be unchanged by the failed call: every item exactly once, in order, nobody blocked forever.
+    #     Oracle only: the exception path is not in the Coq model (declared in the design notes).
+    tl = 800 if c.tier == "quick" else 40000
+    throws = ["kind=pcq gran=fine mode=enum limit=%d cap=1 prod=2 cons=2 cthrow=1" % tl,
+              "kind=pcq gran=fine mode=enum limit=%d cap=1 prod=2 cons=2 cthrow=2" % tl,
+              "kind=pcq gran=fine mode=enum limit=%d cap=2 prod=3 cons=3 cthrow=2" % tl,
+              "kind=pcq gran=fine mode=enum limit=%d cap=2 prod=2,1 cons=2,1 cthrow=1,1" % tl,
+              "kind=pcq gran=fine mode=enum limit=%d cap=1 prod=1,1 cons=1,1 cswap=0,1 cthrow=1,0" % tl,
+              "kind=pcq gran=fine mode=rand runs=%d seed=%d cap=1 prod=3 cons=3 cthrow=1" % (200 if c.tier == "quick" else 3000, c.rng.randrange(1 << 20)),
+              "kind=pcq gran=fine mode=rand runs=%d seed=%d cap=2 prod=2,2 cons=3,1 cthrow=2,1" % (200 if c.tier == "quick" else 3000, c.rng.randrange(1 << 20)),
+              "kind=pcq gran=fine mode=rand runs=%d seed=%d cap=3 prod=4,3 cons=2,5 cswap=1,0 cthrow=0,3" % (200 if c.tier == "quick" else 3000, c.rng.randrange(1 << 20))]
+    tb, _, terr = run_blocks(impl, throws, nproc=len(throws), timeout=600)
+    for e in terr:
+        c.broken.append("hx_queues (exception scenarios): " + e)
+    for line in throws:
+        out = tb.get(line) or ["E -1 MISSING"]
+        c.count(("throw", line), bucket="copy-out-throws")
+        if not any("thrown=" in l for l in out if l.startswith("x ")) and "DEADLOCK" not in out[-1]:
+            c.broken.append("exception scenario did not inject a failing copy-out: " + line)
+        oracle(c, line, out)
     # --- the queue's user named in the anchors: warc_parallel (PCQueue<std::string>, ProduceSwap/ConsumeSwap, one
     #     empty-string end marker per worker): every record exactly once, termination, for -j 1..4
     ok, blog = build_repo(["warc_parallel"])
